@@ -75,7 +75,18 @@ class World:
         for i, o in enumerate(self.objs):
             if o is obj:
                 return i
-        return None
+        return getattr(self, "alias", {}).get(id(obj))
+
+    def pair(self, orig, twin, acc):
+        """objects of a deep copy answer under the object ids of their originals"""
+        if not isinstance(orig, (AbstractPriorModel, TuplePrior)) or id(twin) in acc:
+            return
+        i = self.oid_of(orig)
+        if i is None:
+            return
+        acc[id(twin)] = i
+        for (k, v), (k2, v2) in zip(self.public(orig), self.public(twin)):
+            self.pair(v, v2, acc)
 
     def leaf(self, x):
         if isinstance(x, Prior):
@@ -171,6 +182,9 @@ class World:
             return self.inst(m.instance_from_vector([float(x) for x in q[1]]))
         if k == "info":
             return self.info(m)
+        if k == "models":
+            cls = object if q[1] is None else self.classes[q[1]]
+            return [[[], self.leaf(x)] for x in m.models_with_type(cls, include_zero_dimension=bool(q[2]))]
         raise ValueError(k)
 
     def shadow(self, m, q):
@@ -178,9 +192,15 @@ class World:
             twin = copy.deepcopy(m)
             twin.unfreeze()
             self.keep.append(twin)
+            self.alias = {}
+            acc = {}
+            self.pair(m, twin, acc)
+            self.alias = acc
             return {"ok": self.query(twin, q)}
         except BaseException as e:  # noqa
             return {"exc": exc_name(e)}
+        finally:
+            self.alias = {}
 
     # -- operations ----------------------------------------------------------------
     def step(self, op):
